@@ -189,6 +189,16 @@ class Interp:
         self.pops = {}
         self.obs = None
         self.model = Model()
+        # schedule-independent "which message did it hit" oracles (C03/C05)
+        self.tag_stores = bool(self.prog.get("tag_stores"))
+        self.tags = {}  # unique keyword -> {"uvv":, "asked": set | None, ...}
+        self.unanswered = []  # UID FETCH requests for a known message that returned nothing for it
+        self.selfcopied = set()  # UIDVALIDITYs of mailboxes that were the destination of their own COPY/MOVE
+        self.tag_taint = False
+        self.uidexp_only = bool(self.prog.get("uidexpunge_only"))  # family in which UID EXPUNGE <set> is the only way messages go away
+        self.uidexp_allowed = {}  # (name, uvv) -> UIDs named by some UID EXPUNGE
+        self.seen_uids = {}  # (name, uvv) -> UIDs some session was shown
+        self.other_removal = False
         self.ntok = 1000
         self.refbody = {}  # tok -> bytes first returned by the server
         self.refdate = {}
@@ -386,6 +396,7 @@ class Interp:
                 raise t.exception()
         self.ctx.nontrivial = True
         await self.final_flush_check()
+        await self.check_hit_oracles()
 
     async def final_flush_check(self):
         """Concurrent mode epilogue: at quiescence every selected session is
@@ -972,12 +983,15 @@ class Interp:
         c = code_of(r, "UIDNEXT")
         un = int(c[0]) if c else None
         self.check_uid_codes(box, uvv, un, verb)
+        ms.sel_uvv = (("inbox" if name.lower() == "inbox" else name), uvv) if uvv is not None else None  # identity of the incarnation selected
         ro = "READ-ONLY" in (str(r.code[0]).upper() if r.code else "")
         self.C("c05_readonly_code")
         if bool(op.get("examine")) != ro:
             self.V("C05", "examine_not_read_only", mailbox=name, code=str(r.code))
         if op.get("learn", True) and sess.view:
             f = await self.run_cmd(sess, ms, "UID FETCH 1:* (UID)")
+            if ms.sel_uvv is not None and self.uidexp_allowed.get(ms.sel_uvv, ()) is not None:
+                self.seen_uids.setdefault(ms.sel_uvv, set()).update(c for c in (sess.view or []) if c is not None)
         if self.compare and not box.uncertain:
             self.C("c01_select_exists")
             if not (self.min_visible(box) <= len(sess.view or []) <= len(box.msgs)):
@@ -1076,6 +1090,18 @@ class Interp:
         synced = self.view_synced(sess, box)
         pend_before = ms.maybe_pending
         vlen = len(sess.view or [])
+        tag = None
+        if self.tag_stores and how in "+=" and getattr(ms, "sel_uvv", None) is not None:
+            # a keyword no other command uses: wherever it turns up at the end is where this STORE landed
+            tag = f"zq{self.op_index}"
+            flags = list(flags) + [tag]
+            st = op.get("set") or {"all": True}
+            asked = None
+            if valid is True and uids is not None and "all" not in st and "raw" not in st and all(u is not None for u in uids):
+                asked = set(uids)
+            # copies made later (even back into this mailbox) carry the keyword under UIDs above every UID known now
+            floor = max((c for c in (sess.view or []) if c is not None), default=0)
+            self.tags[tag] = {"uvv": ms.sel_uvv, "asked": asked, "floor": floor, "session": sess.sid, "cmd": f"{'UID ' if op.get('uid') else ''}STORE {txt} {item}"}
         r = await self.run_cmd(sess, ms, f"{'UID ' if op.get('uid') else ''}STORE {txt} {item} ({' '.join(flags)})")
         if r.status is None or ms.dead:
             return
@@ -1159,9 +1185,11 @@ class Interp:
             return
         txt, uids, valid = self.resolve_set(sess, ms, op)
         vlen = len(sess.view or [])
+        pre_view = set(c for c in (sess.view or []) if c is not None)
         r = await self.run_cmd(sess, ms, f"{'UID ' if op.get('uid') else ''}FETCH {txt} {items}")
         if r.status is None or ms.dead:
             return
+        self.check_uid_fetch_answer(sess, ms, box, op, txt, items, uids, valid, pre_view, r)
         if ("*" in txt or valid is False) and len(sess.view or []) != vlen:
             uids = [None]
             valid = None
@@ -1207,6 +1235,102 @@ class Interp:
                     m.flags = m.flags | {"\\seen"}
             self.others_changed(box, sess.sid)
         await self.after_mutation([box], "fetch")
+
+    def check_uid_fetch_answer(self, sess, ms, box, op, txt, items, uids, valid, pre_view, r):
+        """Holds under every schedule: a UID FETCH of an explicit set returns the requested
+        data items only for messages of that set, and for every message of the set that
+        the session knew and that is (still) there."""
+        st = op.get("set") or {"all": True}
+        if not op.get("uid") or not r.ok or valid is not True or uids is None or "all" in st or "raw" in st:
+            return
+        if not re.search(r"BODY|RFC822|INTERNALDATE|ENVELOPE", items.upper()):
+            return  # FLAGS/UID-only answers cannot be told from unsolicited flag updates
+        asked = set(u for u in uids if u is not None)
+        self.C("c03_uid_fetch_answer")
+        answered = set()
+        for u in r.untagged:
+            if u.kind != "FETCH":
+                continue
+            try:
+                it = fetch_items(u)
+            except Exception:
+                continue
+            if not any(k not in ("UID", "FLAGS") for k in it):
+                continue
+            if "UID" not in it:
+                continue
+            uid = int(it["UID"])
+            if uid not in asked:
+                self.V("C03", "uid_fetch_wrong_message", session=sess.sid, cmd=f"UID FETCH {txt} {items}", asked=sorted(asked), got=uid)
+            else:
+                answered.add(uid)
+        for u in sorted((asked & pre_view) - answered):
+            if self.compare:
+                if not box.uncertain and box.by_uid(u) is not None:
+                    self.V("C03", "uid_fetch_missing", session=sess.sid, cmd=f"UID FETCH {txt} {items}", uid=u, mailbox=box.name)
+            elif getattr(ms, "sel_uvv", None) is not None:
+                self.unanswered.append({"uvv": ms.sel_uvv, "uid": u, "session": sess.sid, "cmd": f"UID FETCH {txt} {items}"})
+
+    @staticmethod
+    def copyuid_of(r):
+        """-> (uvv, [src uids]) of a COPYUID code in the tagged or an untagged OK, or None"""
+        cands = [r.code] + [u.code for u in r.untagged if u.kind == "OK"]
+        for c in cands:
+            if c and str(c[0]).upper() == "COPYUID" and len(c) >= 3:
+                try:
+                    return int(str(c[1])), parse_uidset(str(c[2]))
+                except Exception:
+                    return None
+        return None
+
+    async def check_hit_oracles(self):
+        """End of a concurrent run: where did every tagged STORE land; are the messages a
+        UID FETCH did not answer for still there?"""
+        if not (self.tags or self.unanswered or self.uidexp_only) or self.obs is None or self.obs.lost:
+            return
+        r = await self.obs.command('LIST "" "*"')
+        if not r.ok:
+            return
+        names = [n for n, attrs in self.parse_list(r) if "\\noselect" not in attrs]
+        for name in names:
+            e = await self.obs.command(f"EXAMINE {quote(name)}")
+            if not e.ok:
+                continue
+            c = code_of(e, "UIDVALIDITY")
+            uvv = (("inbox" if name.lower() == "inbox" else name), int(c[0])) if c else None
+            f = await self.obs.command("UID FETCH 1:* (UID FLAGS)")
+            await self.obs.command("UNSELECT")
+            if not f.ok or uvv is None:
+                continue
+            here = {}
+            for u in f.untagged:
+                if u.kind != "FETCH":
+                    continue
+                try:
+                    it = fetch_items(u)
+                except Exception:
+                    continue
+                if "UID" in it:
+                    here[int(it["UID"])] = [str(x) for x in it.get("FLAGS", [])]
+            self.C("c03_hit_oracle_mailbox")
+            for uid, fl in here.items():
+                for x in fl:
+                    rec = self.tags.get(x)
+                    if rec is None or rec["uvv"] != uvv or rec["asked"] is None or uid > rec["floor"]:
+                        continue
+                    self.C("c03_tag_checked")
+                    if uid not in rec["asked"]:
+                        self.V("C03", "store_hit_wrong_message", session=rec["session"], cmd=rec["cmd"], asked=sorted(rec["asked"]), hit=uid, mailbox=name)
+            if self.uidexp_only and not self.other_removal and uvv in self.seen_uids:
+                # nothing but UID EXPUNGE <explicit set> removed messages in this run: whatever is gone was named by one
+                self.C("c05_uidexpunge_only_checked")
+                gone = self.seen_uids[uvv] - set(here)
+                bad = sorted(gone - (self.uidexp_allowed.get(uvv) or set()))
+                if bad:
+                    self.V("C05", "expunged_unaddressed", mailbox=name, removed=bad, named=sorted(self.uidexp_allowed.get(uvv) or set()))
+            for rec in self.unanswered:
+                if rec["uvv"] == uvv and rec["uid"] in here:
+                    self.V("C03", "uid_fetch_missing", session=rec["session"], cmd=rec["cmd"], uid=rec["uid"], mailbox=name, mode="concurrent")
 
     async def op_search(self, op):
         sess, ms = self.sess(op)
@@ -1275,6 +1399,16 @@ class Interp:
         if op.get("uidset") is not None:
             txt, restrict, _ = self.resolve_set(sess, ms, {"uid": True, "set": op["uidset"]})
             cmd = f"UID EXPUNGE {txt}"
+            if getattr(ms, "sel_uvv", None) is not None and restrict is not None and "all" not in op["uidset"] and "raw" not in op["uidset"]:
+                if self.uidexp_allowed.get(ms.sel_uvv, ()) is not None:
+                    self.uidexp_allowed.setdefault(ms.sel_uvv, set()).update(u for u in restrict if u is not None)
+            elif getattr(ms, "sel_uvv", None) is not None and "all" in op["uidset"]:
+                self.seen_uids.pop(ms.sel_uvv, None)  # 1:* names everything: nothing to check for this mailbox any more
+                self.uidexp_allowed[ms.sel_uvv] = None
+            else:
+                self.other_removal = True
+        else:
+            self.other_removal = True
         r = await self.run_cmd(sess, ms, cmd)
         if r.status is None or box is None or ms.dead:
             return
@@ -1303,6 +1437,7 @@ class Interp:
             return
         box = ms.selected
         ro = ms.readonly
+        self.other_removal = True
         r = await self.run_cmd(sess, ms, "CLOSE")
         if r.status is None or ms.dead:
             return
@@ -1326,6 +1461,8 @@ class Interp:
         dstname = op["dst"]
         dst = self.model.box(dstname)
         verb = "MOVE" if move else "COPY"
+        if move:
+            self.other_removal = True
         if box is None:
             await self.run_cmd(sess, ms, f"{'UID ' if op.get('uid') else ''}{verb} 1 {quote(dstname)}")
             return
@@ -1334,7 +1471,19 @@ class Interp:
         view_before = list(sess.view or [])
         r = await self.run_cmd(sess, ms, f"{'UID ' if op.get('uid') else ''}{verb} {txt} {quote(dstname)}")
         if r.status is None or ms.dead:
+            self.tag_taint = True  # it may have copied tagged messages anywhere
             return
+        cu = self.copyuid_of(r)
+        sel = getattr(ms, "sel_uvv", None)
+        if cu is not None and sel is not None and cu[0] == sel[1] and (dstname.lower() == sel[0].lower()):
+            self.selfcopied.add(sel)
+        st_ = op.get("set") or {"all": True}
+        if cu is not None and op.get("uid") and valid is True and uids is not None and "all" not in st_ and "raw" not in st_:
+            # under every schedule: the messages reported as copied are among those the UID set named
+            self.C("c05_copyuid_subset")
+            extra = sorted(set(cu[1]) - set(u for u in uids if u is not None))
+            if extra:
+                self.V("C05", "copy_hit_wrong_message", session=sess.sid, cmd=f"UID {verb} {txt}", asked=sorted(u for u in uids if u is not None), copied=sorted(cu[1]))
         if not op.get("uid") and "pos" in (op.get("set") or {}) and not self.view_synced_list(view_before, box):
             # The session had EXPUNGEs pending.  COPY/MOVE may legally flush
             # them first; the numbers are then booked against the view after
